@@ -15,6 +15,16 @@ CHECKS = {
     text="TLC enumerates every value within 64 (quick) / 4096 (thorough) of each power of two 2^0..2^64 in both signs - which covers the four limits, zero, and every narrow-type boundary - and computes from SafeInt.tla what each constructor/conversion must do (accept, reject, not applicable, value preserved, order with successor). Each value is executed on the real typeshare::{U53,I54} (TryFrom, From narrow, TryFrom to narrow, serde_json integer and float-shaped literals, Display, f64 and JSON round trips, usize_from_u53_saturated, cmp/eq). Random values stratified by bit length (6k quick / 200k thorough) plus comparison pairs are judged by TLC as trace events. Apalache proves over unbounded integers that the limb predicates equal the integer predicates of the property.",
     note="Trusted: TLC, Apalache/Z3 for the bridge lemma, decimal-string transport of 64-bit values, Rust's own `as f64` for the IEEE-754 round trip. The 10^7 random draws of the quantifier are sampled at 200k in the thorough tier (trace validation speed).",
     design_ref="6/C18"),
+ "C13": dict(
+    technique="TLA+ spec of the documented --target-os rule (TargetOs.tla) and a TLA+ model of the stack walk (M_TargetOsWalk.tla) checked equal by TLC on every enumerated cfg expression; every (expression, target list, level) replayed through the real parser and CLI; random deeper expressions validated by TLC (Trace_C13.tla)",
+    text="TLC enumerates every cfg expression over any/all/not up to depth 2 over {a,b,c,feature,unix} (quick) / depth 3 over {a,b,feature} (thorough), plus every split into two #[cfg] attributes, computes the accept decision for all 16 target lists over {a,b,c,d} from the documented rule, and checks that the model of TargetOsIterator agrees. Each (expression, target list) is attached as file inner attribute, on struct/enum/alias/const, on a variant, a field and a struct-variant field, and run through the real parser; unguarded siblings must survive. Random expressions to depth 5 with up to three attributes are judged by TLC as trace events; a stratified subset goes through the real binary with --target-os.",
+    note="Trusted: TLC; presence is read from ParsedData for the library runs and from generated TypeScript (extractor) for the CLI runs. The --target-os separator (space vs comma) is not part of the property.",
+    design_ref="6/C13"),
+ "C11": dict(
+    technique="TLA+ spec of 'permutation + linear extension' (Topsort.tla) and a TLA+ model of toposort_impl/sort_by_indices (M_Topsort.tla) model-checked over all small digraphs and permutations; the same graphs/permutations replayed into the real private functions through the cfg hook, programs with every reference placement generated in 5 languages, all recorded orders validated by TLC (Trace_C11.tla)",
+    text="TLC checks on every digraph with 3 (quick) / 4 (thorough) nodes incl. self loops, in ascending and descending neighbour order, that the model of toposort_impl yields a permutation and a linear extension of acyclic graphs, and that the model of sort_by_indices realises every index permutation up to 5 / 7. The same inputs are executed on the real toposort_impl and sort_by_indices (hook) and the results judged by TLC. Every two-item program A->B with the reference written in every carrier (field, newtype variant, struct-variant field, alias, const) x container (direct, Vec, Option, map key/value, array, slice, generic argument, unknown generic, nested generic) x B renamed? x kind of B is generated for TypeScript, Kotlin, Swift, Go and Python; the line of each definition is read back and TLC checks 'each item exactly once, and complete before anything that uses it starts'. Random programs of 3..12 items (DAG and cyclic) extend this beyond the enumerated space.",
+    note="Trusted: TLC; extractors for definition positions; an item's group = main definition + helper structs of its struct variants. Known finding: references to serde-renamed types are invisible to the ordering (snapshot-pinned). Fixed: 1dc1d80.",
+    design_ref="6/C11"),
 }
 
 NOT_YET = "not built yet in this round (planned: see DESIGN.md section 6); no check is registered, nothing is claimed"
@@ -51,7 +61,7 @@ def main():
              "kind_free_text": "explicit TLA+ specifications (spec/*.tla) checked with TLC; TLC-enumerated cases replayed into the real typeshare code (harness/driver, hooked CLI) and recorded executions validated against the specifications by TLC"},
         ],
         "checks": checks,
-        "notes": "Fix commits in /repo: d7ce7e9 (C16). Known findings: /verif/known_findings.jsonl. DESIGN.md describes layers P (judge), M (implementation models, predictions only) and B (binding).",
+        "notes": "Fix commits in /repo: d7ce7e9 (C16), 1dc1d80 (C11). Known findings: /verif/known_findings.jsonl. DESIGN.md describes layers P (judge), M (implementation models, predictions only) and B (binding).",
         "not_applicable": [{"property_id": p, "reason": NA.get(p, NOT_YET)} for p in ALL if p not in CHECKS],
     }
     json.dump(m, open(os.path.join(ROOT, "MANIFEST.json"), "w"), indent=1)
